@@ -97,7 +97,11 @@ func init() {
 		// tiny chunks only on small files: the model rewrites the whole file per chunk
 		chunkFor := func(r *RNG, n int) uint64 {
 			c := pick(r, []uint64{1, 2, 7, 64, 4096, 32768, 1 << 40})
-			for uint64(n)/c > 48 {
+			lim := uint64(48)
+			if n > 100000 {
+				lim = 2
+			}
+			for uint64(n)/c > lim {
 				c *= 8
 			}
 			return c
@@ -113,7 +117,7 @@ func init() {
 				if nb > 2 {
 					nb = 2
 				}
-				g.big = c.Thorough && r.Chance(20)
+				g.big = c.Thorough && r.Chance(35)
 				c.Count("archive:boundary-sizes")
 			case r.Chance(30):
 				g.maxData = 20
@@ -128,6 +132,12 @@ func init() {
 			_, hvn, _ := varint.FromUvarint(payload)
 			hdrBody := hdrLen - hvn
 			nt := len(blks) > 0
+			// 2^21-boundary archives (thorough tier only) get the valid-input families once each and
+			// no malformed stream: a case line carries the file several times in hex
+			huge := len(payload) > 100000
+			if huge {
+				c.Count("archive:huge")
+			}
 			c.Count("archive:blocks=" + string(rune('0'+len(blks))))
 			valid := VL{VT("valid"), cidsVal(roots), blksVal(blks)}
 			none := VL{VT("none")}
@@ -200,11 +210,13 @@ func init() {
 			if string(obs0.(VL)[0].(VT)) == "nil" {
 				index = []byte(obs0.(VL)[2].(VL)[1].(VB))[51+len(payload):]
 			}
-			emitWrap(randOpts(memMaxSeek), 0, payload, valid, nt)
 			emitWrap(fileOpts, 1, payload, valid, nt)
-			emitWrap(fileOpts, 2, payload, valid, nt)
-			emitWrap(fileOpts, 3, payload, valid, false)
-			emitWrap(randOpts(fileSeek), 4, payload, valid, nt)
+			if !huge {
+				emitWrap(randOpts(memMaxSeek), 0, payload, valid, nt)
+				emitWrap(fileOpts, 2, payload, valid, nt)
+				emitWrap(fileOpts, 3, payload, valid, false)
+				emitWrap(randOpts(fileSeek), 4, payload, valid, nt)
+			}
 
 			// ---------------- containers / extract ----------------
 			dests := func(dsize int) []Val {
@@ -244,7 +256,11 @@ func init() {
 				} else {
 					c.Count("container:index")
 				}
-				for _, d := range dests(len(payload)) {
+				ds := dests(len(payload))
+				if huge {
+					ds = []Val{ds[1], ds[3]}
+				}
+				for _, d := range ds {
 					o := fileOpts
 					if r.Chance(15) {
 						o.maxH = pick(r, []uint64{10, 9, 11})
@@ -258,7 +274,10 @@ func init() {
 			}
 
 			// ---------------- round trip ----------------
-			for _, d := range []Val{VL{VT("absent")}, VL{VT("file"), VB(r.Bytes(len(payload) + 1 + pick(r, []int{0, 59, r.Intn(3000)})))}, VL{VT("same")}} {
+			for di, d := range []Val{VL{VT("same")}, VL{VT("absent")}, VL{VT("file"), VB(r.Bytes(len(payload) + 1 + pick(r, []int{0, 59, r.Intn(3000)})))}} {
+				if huge && di > 0 {
+					break
+				}
 				o := fileOpts
 				if r.Chance(30) {
 					o = randOpts(fileSeek) // may make the wrap fail: then nothing is claimed
@@ -310,6 +329,9 @@ func init() {
 				}
 				repl = append(repl, alt)
 			}
+			if huge {
+				repl = repl[:2]
+			}
 			for _, nr := range repl {
 				differs := len(nr) != len(roots)
 				for i := range nr {
@@ -337,6 +359,9 @@ func init() {
 			}
 
 			// ---------------- malformed stream ----------------
+			if huge {
+				continue
+			}
 			ct := conts[0]
 			// extract: file shorter than the declared window (partial overwrite, then an error)
 			for _, d := range dests(len(payload)) {
@@ -371,7 +396,6 @@ func init() {
 			c.CountN("malformed:extract-other", 7)
 
 			// wrap: prefixes, byte corruptions, null padding, lengths past the end, CARv2 source
-			huge := len(payload) > 100000 // thorough tier only: keep the case file within bounds
 			nPre := 8
 			if c.Thorough || len(payload) < 120 {
 				nPre = len(payload)
@@ -379,9 +403,7 @@ func init() {
 					nPre = 160
 				}
 			}
-			if huge {
-				nPre = 2
-			}
+
 			for t := 0; t < nPre; t++ {
 				cut := r.Intn(len(payload))
 				if nPre == len(payload) {
@@ -396,11 +418,7 @@ func init() {
 				emitWrap(o, mode, payload[:cut], none, false)
 				c.Count("malformed:wrap-prefix")
 			}
-			nCorrupt := 10
-			if huge {
-				nCorrupt = 2
-			}
-			for t := 0; t < nCorrupt; t++ {
+			for t := 0; t < 10; t++ {
 				f := append([]byte{}, payload...)
 				f[r.Intn(len(f))] ^= pick(r, []byte{0x01, 0x80, 0xff, 0x7f})
 				emitWrap(randOpts(memMaxSeek), 0, f, none, false)
